@@ -1,9 +1,18 @@
 /-
 C02 — Canonical query text is a fixed point of parsing and encoding.
+
+Every query AST in the image of the parser (`wfTop`, see `LiquerModel/WF.lean`) — any number of
+segments, actions and parameters, links nested to any depth — is read back by `parse` from its
+canonical text up to positions (`erase` = `clean_position`), and encoding the result reproduces the
+canonical text. The two known findings of the implementation are exactly the accepted strings whose
+AST is not `wfTop`; they are documented by the negative witnesses at the end.
+Helper lemmas: `LiquerProofs/Lemmas/Parse*.lean`; regenerated-table side conditions:
+`LiquerProofs/Inst/Grammar.lean`.
 -/
 import LiquerModel.Parse
 import LiquerProofs.Inst.Terminals
 import LiquerProofs.Inst.EscapeTable
+import LiquerProofs.Lemmas.ParseTop
 
 namespace Liquer.C02
 
@@ -15,6 +24,147 @@ theorem inst_terminals :
   Inst.terminals_deterministic
 theorem inst_grammar_shape : Gen.grammarShapeOK = true := Inst.grammar_shape
 
+/-- the side conditions on the regenerated terminals, entity table and escape table that the round-trip
+proof uses (all closed by `decide` in `Inst/Grammar.lean`) -/
+theorem inst_grammar :
+    Gen.escapeTable.all (fun pe =>
+      Gen.entityTable.find? (fun e => isPrefix e.1 pe.2) == some (pe.2, pe.1) &&
+      pe.2.length == 2 && !isPrefix pe.2 Gen.linkOpen) = true ∧
+    Gen.entityTable.all (fun e => !isPrefix e.1 Gen.linkClose) = true ∧
+    Inst.delims.all (Inst.excl Gen.identifierRe) = true ∧
+    ['/', '~'].all (Inst.excl Gen.filenameRe) = true ∧
+    ['/', '~'].all (Inst.excl Gen.resourceNameRe) = true :=
+  ⟨Inst.entity_inverts_escape, Inst.linkClose_not_entity, Inst.identifier_stops, Inst.filename_stops,
+    Inst.resourceName_stops⟩
+
+/-! ### a non-trivial well-formed query (used as the non-vacuity witness of the implications below) -/
+
+/-- (canonical text: see the `example` below) absolute, a resource segment with a
+header parameter, a transform segment with a header parameter, an action with a link argument (itself
+absolute, with an escaped `/` and a file name) followed by an empty argument, and a file name -/
+def sample : Query :=
+  .mk [ .resource (some (.mk [] 1 [.str ['m','e','t','a'] 0] true)) [['a'], ['b','.','t','x','t']],
+        .transform (some (.mk ['n','s'] 1 [.str ['x',' ','y'] 0] false))
+          [.mk ['a','c','t']
+            [.link (.mk [.transform none [.mk ['i','n','n','e','r'] [.str ['1','/','2'] 0] 0]
+                (some ['f','.','c','s','v'])] true) 0,
+             .str [] 0] 0]
+          (some ['o','u','t','.','j','s','o','n']) ] true
+
+/-- a resource path followed by one headed transform segment: the `[resource, transform]` reading -/
+def sampleRtq : Query :=
+  .mk [ .resource none [['d','a','t','a'], ['x','.','c','s','v']],
+        .transform (some (.mk [] 1 [] false)) [.mk ['f','i','l','t','e','r'] [.str ['a'] 0] 0] none ] false
+
+theorem sample_wf : wfTop Gen.escapeTable sample = true := by decide +kernel
+theorem sampleRtq_wf : wfTop Gen.escapeTable sampleRtq = true := by decide +kernel
+
+example : sample.encode Gen.escapeTable =
+    "/-R-meta/a/b.txt/-ns-x~.y/act-~X~/inner-1~I2/f.csv~E-/out.json".toList := by decide +kernel
+example : sampleRtq.encode Gen.escapeTable = "data/x.csv/-/filter-a".toList := by decide +kernel
+
+/-! ### S0: encoding ignores positions; canonical text has no white space -/
+
+theorem encode_erase (tbl : EscTable) (q : Query) : q.erase.encode tbl = q.encode tbl :=
+  Query.encode_erase tbl q
+
+/-- the canonical text of a well-formed query contains no white-space character (in particular no TAB),
+so `expandtabs` and every white-space skip of the parser are the identity on it -/
+theorem encode_no_ws (q : Query) (hwf : wfTop Gen.escapeTable q = true) :
+    (∀ c ∈ q.encode Gen.escapeTable, PS.isWhite c = false) ∧
+      expandTabs 0 (q.encode Gen.escapeTable) = q.encode Gen.escapeTable :=
+  ⟨noWs_of_wfTop hwf, expandTabs_noWs _ _ (noWs_of_wfTop hwf)⟩
+
+example : wfTop Gen.escapeTable sample = true := sample_wf
+
+/-! ### S1–S5: the parser reads canonical text back -/
+
+/-- S5 (links nested to any depth): `parse_query` reads back the canonical text of every well-formed
+link query, whatever follows the closing `~E` -/
+theorem parseQuery_encode (dec : List UInt8 → List Char) (hd : DecOK dec) (q : Query)
+    (hwf : wfInner q = true) (rest : Str) (p n : Nat)
+    (hrest : rest = [] ∨ ∃ t, rest = '~' :: 'E' :: t)
+    (hws : ∀ c ∈ rest, PS.isWhite c = false)
+    (hn : 8 * (q.encode Gen.escapeTable).length + 9 ≤ n) :
+    ∃ q' p', parseQuery dec n ⟨q.encode Gen.escapeTable ++ rest, p⟩ = some (q', ⟨rest, p'⟩) ∧
+      q'.erase = q.erase := by
+  apply Liquer.parseQuery_encode hd q hwf rest p n ((Query.noWs q hwf).append hws) _ hn
+  rcases hrest with rfl | ⟨t, rfl⟩
+  · rfl
+  · exact qStop_linkClose t
+
+-- non-vacuity: the link argument of `sample` is a well-formed link query
+example : wfInner (.mk [.transform none [.mk ['i','n','n','e','r'] [.str ['1','/','2'] 0] 0]
+    (some ['f','.','c','s','v'])] true) = true := by decide +kernel
+
+/-- MAIN THEOREM: every well-formed query is read back from its canonical text, up to positions -/
+theorem print_parse (dec : List UInt8 → List Char) (hd : DecOK dec) (q : Query)
+    (hwf : wfTop Gen.escapeTable q = true) :
+    ∃ q', parse dec (q.encode Gen.escapeTable) = some q' ∧ q'.erase = q.erase :=
+  print_parse_main hd q hwf
+
+/-- the canonical text is a fixed point: parsing it and encoding the result reproduces it -/
+theorem canonical_fixed_point (dec : List UInt8 → List Char) (hd : DecOK dec) (q : Query)
+    (hwf : wfTop Gen.escapeTable q = true) :
+    ∃ q', parse dec (q.encode Gen.escapeTable) = some q' ∧ q'.erase = q.erase ∧
+      q'.encode Gen.escapeTable = q.encode Gen.escapeTable := by
+  obtain ⟨q', h1, h2⟩ := print_parse dec hd q hwf
+  refine ⟨q', h1, h2, ?_⟩
+  rw [← encode_erase, h2, encode_erase]
+
+-- non-vacuity: the hypotheses hold for the driver's decoder and for both sample queries
+example : DecOK decUtf8 ∧ wfTop Gen.escapeTable sample = true ∧ wfTop Gen.escapeTable sampleRtq = true :=
+  ⟨Liquer.decUtf8_ok, sample_wf, sampleRtq_wf⟩
+
+theorem real_fixed_point (q : Query) (hwf : wfTop Gen.escapeTable q = true) :
+    ∃ q', parse decUtf8 (q.encode Gen.escapeTable) = some q' ∧ q'.erase = q.erase ∧
+      q'.encode Gen.escapeTable = q.encode Gen.escapeTable :=
+  canonical_fixed_point decUtf8 Liquer.decUtf8_ok q hwf
+
+example : wfTop Gen.escapeTable sample = true := sample_wf
+
+/-! ### the two known findings: accepted strings whose AST is not `wfTop` do not round-trip -/
+
+/-- a simple total byte decoder (Latin-1), enough for the ASCII witnesses below -/
+def decL1 (bs : List UInt8) : List Char := bs.map (fun b => Char.ofNat b.toNat)
+
+/-- the string `ns-%41` `/b/` `-x/c` (written in pieces: a slash followed by a dash would open a comment) -/
+def strA : Str := ['n','s','-','%','4','1','/','b','/','-','x','/','c']
+def astA : Query :=
+  .mk [.transform none [.mk ['n','s'] [.str ['A'] 3] 0, .mk ['b'] [] 7] none,
+       .transform (some (.mk ['x'] 1 [] false)) [.mk ['c'] [] 12] none] false
+def astA' : Query :=
+  .mk [.resource none [['n','s','-','A'], ['b']],
+       .transform (some (.mk ['x'] 1 [] false)) [.mk ['c'] [] 10] none] false
+
+/-- finding `rtq-capture`: the parser accepts `strA` as two transform segments; the AST is not
+`wfTop`; its canonical text (the same with `%41` replaced by `A`) re-parses as `[resource, transform]`,
+a different query -/
+theorem finding_rtq_capture :
+    parse decL1 strA = some astA ∧ wfTop Gen.escapeTable astA = false ∧
+    parse decL1 (astA.encode Gen.escapeTable) = some astA' ∧ astA'.erase ≠ astA.erase := by
+  refine ⟨by rfl, by decide +kernel, by rfl, ?_⟩
+  intro h
+  have := congrArg (fun q : Query => q.segments.map Seg.isTransform) h
+  revert this
+  decide
+
+/-- `-R- -1/x` -/
+def strB : Str := ['-','R','-',' ','-','1','/','x']
+def astB : Query := .mk [.resource (some (.mk [] 1 [.str [] 3, .str ['1'] 5] true)) [['x']]] false
+def astB' : Query := .mk [.resource (some (.mk [] 1 [.str ['1'] 4] true)) [['x']]] false
+
+/-- finding `res-header-empty-param`: `-R- -1/x` has an empty parameter followed by another one in a
+resource header; the AST is not `wfTop`; its canonical text `-R--1/x` loses the empty parameter -/
+theorem finding_res_header_empty_param :
+    parse decL1 strB = some astB ∧ wfTop Gen.escapeTable astB = false ∧
+    parse decL1 (astB.encode Gen.escapeTable) = some astB' ∧ astB'.erase ≠ astB.erase := by
+  refine ⟨by rfl, by decide +kernel, by rfl, ?_⟩
+  intro h
+  have := congrArg (fun q : Query => q.segments.map (fun s => s.header.map (fun h => h.params.length))) h
+  revert this
+  decide
+
 end Liquer.C02
 
--- OBLIGATIONS: Liquer.C02.inst_terminals Liquer.C02.inst_grammar_shape
+-- OBLIGATIONS: Liquer.C02.inst_terminals Liquer.C02.inst_grammar_shape Liquer.C02.inst_grammar Liquer.C02.sample_wf Liquer.C02.sampleRtq_wf Liquer.C02.encode_erase Liquer.C02.encode_no_ws Liquer.C02.parseQuery_encode Liquer.C02.print_parse Liquer.C02.canonical_fixed_point Liquer.C02.real_fixed_point Liquer.C02.finding_rtq_capture Liquer.C02.finding_res_header_empty_param
